@@ -409,6 +409,52 @@ func runC07(c *core.Ctx) {
 	c.Check(badUnder == "", "R5", "BufferedChannelQueue/under-lock", p.Pos(bq.Obj().Pos()), fmt.Sprintf("%d instructions execute under the queue lock, none can block", nUnder), "blocking operation under the queue lock stalls every producer and consumer: "+badUnder)
 	// ---------------- R6 ChannelQueue wrappers
 	c07wrappers(c)
+	// ---------------- R9 consumers hand out what they took
+	c.Rule("R9", "a consumer entry point (Poll/Take/TakeWithTimeout) returns, whenever its error result can be nil, the very value its channel operation yielded - a value taken from the channel is never replaced (e.g. by the zero value of a shadowed named result) and thereby lost", 3)
+	for _, name := range []string{"Poll", "Take", "TakeWithTimeout"} {
+		f := p.Method(p.Fpgo, "BufferedChannelQueue", name)
+		if f == nil || f.Signature.Results().Len() != 2 {
+			c.Unknown("R9", "BufferedChannelQueue."+name, "-", "method not found")
+			continue
+		}
+		c.Analysed(core.FuncName(f))
+		// the channel operations: calls of ChannelQueue methods (or direct receives) on the queue's item channel
+		isTaken := func(v ssa.Value) bool {
+			ex, isE := core.Resolve(v).(*ssa.Extract)
+			if !isE || ex.Index != 0 {
+				return false
+			}
+			switch t := ex.Tuple.(type) {
+			case *ssa.Call:
+				return len(t.Call.Args) > 0 && core.FieldKey(t.Call.Args[0]) == "BufferedChannelQueue.blockingQueue"
+			case *ssa.UnOp:
+				return t.Op == token.ARROW && core.FieldKey(t.X) == "BufferedChannelQueue.blockingQueue"
+			case *ssa.Select:
+				return true
+			}
+			return false
+		}
+		bad := ""
+		for _, rc := range core.ReturnCases(f) {
+			ev := core.Resolve(rc.Vals[1])
+			if core.GlobalName(ev) != "" {
+				continue // a sentinel error: the value does not matter
+			}
+			nonNil := false
+			for _, m := range rc.Cmps() {
+				if m.Op == token.NEQ && core.IsNilConst(m.Y) && core.Resolve(m.X) == ev {
+					nonNil = true
+				}
+			}
+			if nonNil {
+				continue
+			}
+			if !isTaken(rc.Vals[0]) {
+				bad = "the return at " + p.InstrPos(rc.Ret) + " can carry a nil error with a value that is not the one taken from the channel"
+			}
+		}
+		c.Check(bad == "", "R9", "BufferedChannelQueue."+name, p.Pos(f.Pos()), "success returns carry the value taken from the channel", bad+": the item is consumed but the caller gets something else (a zero value is invented, the item is lost)")
+	}
 	// ---------------- R7 Count
 	if f := p.Method(p.Fpgo, "BufferedChannelQueue", "Count"); f == nil {
 		c.Unknown("R7", "BufferedChannelQueue.Count", "-", "method not found")
